@@ -408,6 +408,7 @@ func runCorrupt(sc *bw.Scenario, cl *closure, res *vresult, out *simkit.Outcome)
 			}
 		}
 		checkOpened(b, dir, out, fmt.Sprintf("manifest corrupted by %+v", c))
+		checkReverseOnDisk(b, dir, out, fmt.Sprintf("manifest corrupted by %+v", c))
 	}
 }
 
@@ -444,6 +445,36 @@ func runSynthetic(sc *bw.Scenario, log *simkit.Log, out *simkit.Outcome) {
 			checkOpened(b, dir, out, "synthetic manifest")
 		} else {
 			out.Probe("hostile-manifest-refused")
+		}
+	}
+}
+
+// checkReverseOnDisk: whatever the manifest says, a path that translates to a
+// source address translates back to itself, for every directory physically present.
+func checkReverseOnDisk(b *sourcebundle.Bundle, root string, out *simkit.Outcome, what string) {
+	defer func() {
+		if x := recover(); x != nil {
+			out.Violate("C19", "bundle-accessor-panic", "panic", fmt.Sprintf("%s: SourceForLocalPath/LocalPathForSource panicked: %v", what, x))
+		}
+	}()
+	ents, _ := os.ReadDir(root)
+	for _, e := range ents {
+		if !e.IsDir() {
+			continue
+		}
+		for _, sub := range []string{"", "main.tf", "m1/main.tf"} {
+			lp := root + "/" + e.Name()
+			if sub != "" {
+				lp += "/" + sub
+			}
+			src, err := b.SourceForLocalPath(lp)
+			if err != nil {
+				continue
+			}
+			back, err := b.LocalPathForSource(src)
+			if err != nil || filepath.Clean(back) != filepath.Clean(lp) {
+				out.Violate("C18", "reverse-lookup", "not-inverse", fmt.Sprintf("%s: path %s -> %s -> %q (%v)", what, simkit.CanonString(lp), src, back, err))
+			}
 		}
 	}
 }
